@@ -148,6 +148,31 @@ func main() {
 			seed = v
 		}
 	}
+	if replay != "" {
+		// a replay file records the key, seed and tier of the run that found the violation: print the
+		// witness and run the same check again with that seed (generated cases are functions of the seed;
+		// schedule-dependent ones are replayed by repetition)
+		if b, err := os.ReadFile(replay); err == nil {
+			var rp struct {
+				Key       string         `json:"key"`
+				Seed      int64          `json:"seed"`
+				Tier      string         `json:"tier"`
+				Witnesses []vk.Violation `json:"witnesses"`
+			}
+			if json.Unmarshal(b, &rp) == nil {
+				fmt.Printf("replaying %s (key %s, seed %d, tier %s)\n", replay, rp.Key, rp.Seed, rp.Tier)
+				if len(rp.Witnesses) > 0 {
+					fmt.Printf("  recorded witness: %s\n", vk.Trunc(rp.Witnesses[0].Detail, 1200))
+				}
+				seed = rp.Seed
+				if rp.Tier == "thorough" || rp.Tier == "quick" {
+					tier = rp.Tier
+				}
+			}
+		} else {
+			fmt.Fprintf(os.Stderr, "cannot read replay file: %v\n", err)
+		}
+	}
 	pc, ok := cfg[id]
 	if !ok {
 		fmt.Fprintf(os.Stderr, "unknown property %s\n", id)
